@@ -186,7 +186,7 @@ func (cr *vfCacheRun) why(k string) string {
 
 // settle waits for asynchronous work of the cache (expiry callbacks) to finish
 // and compares the content of the cache with the model.
-func (cr *vfCacheRun) settle() {
+func (cr *vfCacheRun) settle(afterTick bool) {
 	cr.tw.RemoveTimer(-1)
 	if !vfQuiesce(cr.baseline) {
 		cr.c.Inconclusive("expiry callback goroutines did not finish")
@@ -207,8 +207,17 @@ func (cr *vfCacheRun) settle() {
 			cr.viol("C16/cache/expiry/too-late", fmt.Sprintf("key %s (expire %v, set at tick %d) is still cached after %d ticks; it must be gone after at most %d", k, e.expire, e.setTick, n, e.hi))
 		case present && v != e.val:
 			cr.viol("C16/cache/state/not-latest-value", fmt.Sprintf("key %s holds %v, latest value set is %v", k, v, e.val))
+		case !present && !afterTick:
+			if n < e.lo || n > 0 {
+				// no tick since the last comparison: nothing can have expired (an immediate expiry is possible
+				// only right after a Set with an envelope starting at 0 ticks, i.e. n == 0 and lo == 0)
+				cr.viol("C16/cache/state/live-key-missing", fmt.Sprintf("key %s=%v vanished during an operation that neither deleted it nor was due to evict it (limit %d)", k, e.val, cr.limit))
+				break
+			}
+			cr.expiries++
+			cr.drop(k, "expired")
 		case !present && n < e.lo:
-			cr.viol("C16/cache/expiry/too-early-or-lost", fmt.Sprintf("key %s (expire %v, set at tick %d) vanished after %d ticks; it was neither deleted nor due for eviction and cannot expire before tick %d after set", k, e.expire, e.setTick, n, e.lo))
+			cr.viol("C16/cache/expiry/too-early", fmt.Sprintf("key %s (expire %v, set at tick %d) vanished after %d ticks; it was neither deleted nor due for eviction and cannot expire before tick %d after set", k, e.expire, e.setTick, n, e.lo))
 		case !present:
 			cr.expiries++
 			if 2*n < e.lo+e.hi {
@@ -236,7 +245,7 @@ func (cr *vfCacheRun) settle() {
 func (cr *vfCacheRun) tick() {
 	cr.tk.c <- time.Time{}
 	cr.ticks++
-	cr.settle()
+	cr.settle(true)
 }
 
 var vfErrLoad = errors.New("c16: loader failed")
@@ -363,6 +372,8 @@ func vfCacheHistory(c *kit.Case, r *kit.Rand, sample bool) {
 				cr.takeFails++
 				if gerr == nil {
 					cr.viol("C16/cache/take/load-error-swallowed", fmt.Sprintf("Take(%s): loader failed, Take returned (%v,nil)", k, got))
+				} else if v, ok := cache.Get(k); ok { // on a correct cache this Get misses and changes nothing
+					cr.viol("C16/cache/take/failed-load-cached", fmt.Sprintf("Take(%s): the loader failed, yet the key is cached afterwards with %v", k, v))
 				}
 			default:
 				cr.takeLoads++
@@ -378,9 +389,11 @@ func vfCacheHistory(c *kit.Case, r *kit.Rand, sample bool) {
 				n = r.Range(2, 12)
 			case 2:
 				// run up to the edge of some entry's expiry envelope
-				for _, e := range cr.model {
-					n = e.setTick + kit.Choose(r, []int{e.lo, e.lo + 1, e.hi - 1, e.hi}) - cr.ticks
-					break
+				for _, k := range keys {
+					if e, ok := cr.model[k]; ok {
+						n = e.setTick + kit.Choose(r, []int{e.lo, e.lo + 1, e.hi - 1, e.hi}) - cr.ticks
+						break
+					}
 				}
 			case 3:
 				n = r.Range(10, 350)
@@ -398,7 +411,7 @@ func vfCacheHistory(c *kit.Case, r *kit.Rand, sample bool) {
 			continue
 		}
 		if !cr.bad {
-			cr.settle()
+			cr.settle(false)
 		}
 	}
 	// run every remaining entry past its envelope: each must expire inside it
@@ -447,7 +460,7 @@ type vfSM struct {
 	nextV int
 	h     uint64
 	// statistics (observed on the real object)
-	switchOld, switchNew, setsIntoNew, delsFromNew, movesOldToNew, movesNewToOld int64
+	switchOld, switchNew, setsIntoNew, delsFromNew, movesOldToNew int64
 }
 
 func (s *vfSM) op(x string) {
@@ -498,8 +511,6 @@ func (s *vfSM) set(k any, log bool) {
 		if _, ok := s.m.dirtyOld[k]; ok {
 			s.movesOldToNew++
 		}
-	} else if _, ok := s.m.dirtyNew[k]; ok {
-		s.movesNewToOld++
 	}
 	s.m.Set(k, s.nextV)
 	s.model[k] = s.nextV
@@ -627,10 +638,9 @@ func vfSafeMapHistory(c *kit.Case, r *kit.Rand, sample bool) {
 	c.Obs("wb_safemap_switches_second_generation_folded_back", s.switchNew)
 	c.Obs("wb_safemap_sets_routed_to_second_generation", s.setsIntoNew)
 	c.Obs("wb_safemap_sets_moving_key_first_to_second", s.movesOldToNew)
-	c.Obs("wb_safemap_sets_moving_key_second_to_first", s.movesNewToOld)
 	c.Obs("wb_safemap_dels_from_second_generation", s.delsFromNew)
 	// non-trivial: a generation switch happened, or a key changed generation
-	c.Sig(s.switchOld+s.switchNew > 0 || s.movesOldToNew+s.movesNewToOld > 0, "wb-safemap", f, d0, s.h)
+	c.Sig(s.switchOld+s.switchNew > 0 || s.movesOldToNew > 0, "wb-safemap", f, d0, s.h)
 	if sample {
 		c.Sample("wb-safemap", 1, map[string]any{"setup": s.setup, "ops": s.ops})
 	}
@@ -643,14 +653,14 @@ func TestVerifC16W(t *testing.T) {
 	vfGoroutines = runtime.NumGoroutine()
 
 	const cb = 5
-	kit.Run(t, "C16", "wb-cache-expiry", kit.N(200, 6000), func(c *kit.Case) {
+	kit.Run(t, "C16", "wb-cache-expiry", kit.N(480, 6400), func(c *kit.Case) {
 		for h := 0; h < cb && !c.Violated(); h++ {
 			vfCacheHistory(c, c.R, c.Index == 0 && h < 2)
 		}
 		c.Evals(cb)
 	})
 	const sb = 20
-	kit.Run(t, "C16", "wb-safemap-thresholds", kit.N(100, 4000), func(c *kit.Case) {
+	kit.Run(t, "C16", "wb-safemap-thresholds", kit.N(300, 4800), func(c *kit.Case) {
 		for h := 0; h < sb && !c.Violated(); h++ {
 			vfSafeMapHistory(c, c.R, c.Index == 0 && h == 0)
 		}
